@@ -166,6 +166,19 @@ pub fn generate(ctx: &mut Ctx) {
         let v = gen::value(&mut rng, &Cfg::any(3));
         ctx.case("any:rand", &vx::show(&v));
     }
+    // known finding DEPTH64: the reader's nesting bound
+    {
+        let mut v = Value::make_int(1);
+        for _ in 0..64 {
+            v = Value::List(vec![v]);
+        }
+        ctx.case("wf:deep64", &vx::show(&v));
+        let mut v = Value::make_int(1);
+        for _ in 0..63 {
+            v = Value::List(vec![v]);
+        }
+        ctx.case("wf:deep63", &vx::show(&v));
+    }
     // known finding Z4: single-column grid, row without the cell
     let g = Grid { meta: None, columns: vec![Column { name: "a".into(), meta: None }], rows: vec![Dict::new(), { let mut d = Dict::new(); d.insert("a".into(), 1.into()); d }], ver: "3.0".into() };
     ctx.case("wf:z4", &vx::show(&Value::Grid(g)));
